@@ -38,16 +38,19 @@ REQ = gcsim.REQ
 TIMEOUT_MS = h5.TIMEOUT_MS
 
 MANIFEST_ENTRY = {
-    "level_text": "C07_fail_closed (every fault oracle: abort before the first delete, or only unreferenced / unprotected / old files "
-                  "deleted), C07_damage (missing or unparseable reachable list / manifest aborts, under any additional faults), "
-                  "C07_transient (a run that gets past reachability read every list and manifest without an effective fault) and "
-                  "C07_marker_keep proved in Coq over the call-by-call collector model with regenerated path kernel; the model's "
-                  "fault handling is tied to the code by injecting a fault at every storage call of real collections (4 fault kinds) "
-                  "and every damage class on every reachable metadata-plane file, comparing abort phase, deleted set and call trace",
-    "level_note": "trusted: Coq kernel; translator/gen_norm.py (incl. the pinned try/except skeleton); wf_store; metadata_manager.refresh() "
-                  "is outside the model (faults there are judged by the oracle only: any exception, nothing deleted); an abort raised by "
-                  "a sweep's own listing may follow deletions of true orphans (the property's second disjunct) -- stated and proved as such; "
-                  "damage that still parses (e.g. a JSON '{}' manifest) is not judged; local backend only",
+    "level_text": "C07_fail_closed (every fault oracle: an abort raised while reachability / in-flight protection is established deletes "
+                  "nothing; otherwise only unreferenced, unprotected, old files are deleted), C07_damage (missing or unparseable reachable "
+                  "list / manifest aborts before the first sweep, under any additional faults), C07_transient (a run that reaches the sweeps "
+                  "read every list and manifest without an effective fault) and C07_marker_keep proved in Coq over the call-by-call collector "
+                  "model with regenerated path kernel, for both orders of the two preparatory phases (regenerated MARKERS_FIRST); the model's "
+                  "fault handling is tied to the code by injecting a fault at every storage call of real collections (4 fault kinds; thorough: "
+                  "pairs) and every damage class on every reachable metadata-plane file, comparing abort phase, deleted set and call trace",
+    "level_note": "trusted: Coq kernel; translator/gen_norm.py (incl. the pinned try/except skeleton); wf_store; the pointer plane "
+                  "(metadata_manager.refresh(), collect()'s check that the hinted metadata file exists) is outside the model: faults and "
+                  "damage there are judged by the implementation-only oracle (any exception, nothing deleted); a stale hint naming an older "
+                  "existing version is C10's finding and only recorded; an abort raised by a sweep's own listing may follow deletions of "
+                  "true orphans (the property's second disjunct) -- stated and proved as such; damage that still parses (a JSON object "
+                  "without 'manifests' / 'files' reads as an EMPTY manifest) is modelled, recorded and not judged; local backend only",
     "technique": "Coq proof for all fault oracles + exhaustive single-fault injection at every storage call (differential)",
     "design_ref": "DESIGN.md section 5 C07",
 }
